@@ -89,9 +89,13 @@ class Check:
                  "anchor missing: cannot certify (%s) %s" % (what, detail))
 
     def floor(self, rule, measured, floor):
+        # `floor` is the number of instances confirmed by hand on the reference tree.  A behaviour-preserving change
+        # may merge duplicated sites into one helper (fewer instances, same coverage), so the alarm is raised only
+        # when the rule lost more than half of its confirmed instances - the signature of a rule gone vacuous.
         self.floors[rule] = (measured, floor)
-        if measured < floor:
-            self.bad(rule, "floor", "rule %s matched %d instances, fewer than the %d confirmed by hand; "
+        need = max(1, (floor + 1) // 2)
+        if measured < need:
+            self.bad(rule, "floor", "rule %s matched %d instances, fewer than half of the %d confirmed by hand; "
                      "the rule may have gone vacuous (fail closed)" % (rule, measured, floor))
 
     def fn_seen(self, fn):
@@ -168,3 +172,58 @@ class Check:
                  len(self.known_hits), wall))
         sys.stdout.flush()
         return 1 if self.violations else 0
+
+
+class Renamed:
+    """View of a Check that files a sibling property's rules under this property's rule ids.  Only the rules named in
+    `mapping` are kept (value: new rule id, or (new rule id, predicate on the instance key)); everything else the
+    borrowed rule code reports is dropped."""
+
+    def __init__(self, chk, mapping, floors=False):
+        self._c = chk
+        self._m = dict(mapping)
+        self._floors = floors
+
+    def __getattr__(self, name):
+        return getattr(self._c, name)
+
+    def _to(self, rule, key=None):
+        v = self._m.get(rule)
+        if v is None:
+            return None
+        if isinstance(v, tuple):
+            if key is not None and not v[1](key):
+                return None
+            return v[0]
+        return v
+
+    def rule(self, rid, text):
+        r = self._to(rid)
+        if r and r not in self._c.rules:
+            self._c.rule(r, text)
+
+    def ok(self, rule, key, *a, **kw):
+        r = self._to(rule, key)
+        if r:
+            return self._c.ok(r, key, *a, **kw)
+
+    def bad(self, rule, key, *a, **kw):
+        r = self._to(rule, key)
+        if r:
+            return self._c.bad(r, key, *a, **kw)
+
+    def check(self, cond, rule, key, *a, **kw):
+        r = self._to(rule, key)
+        if r:
+            return self._c.check(cond, r, key, *a, **kw)
+        return cond
+
+    def anchor_missing(self, rule, what, detail=""):
+        r = self._to(rule, what)
+        if r:
+            return self._c.anchor_missing(r, what, detail)
+
+    def floor(self, rule, measured, floor):
+        r = self._to(rule)
+        if r and self._floors:
+            return self._c.floor(r, measured, floor)
